@@ -3,9 +3,11 @@ import vlib
 CFG = dict(
     imports=["From Verif.C31 Require Import Model Spec."],
     checker="check_case",
-    n=dict(quick=150, thorough=6000),
+    n=dict(quick=150, thorough=3000),
     shard=50,
-    rule="histories of 10-35 operations (joins/leaves with fresh and stale join UIDs, re-joins over a live connection, "
+    rule="two scripted scenarios (every rule field referencing an IP set, reference changes under a connected workload, "
+         "join before the endpoint exists, re-join, endpoint removed while connected) followed by random "
+         "histories of 12-35 operations (joins/leaves with fresh and stale join UIDs, re-joins over a live connection, "
          "endpoint/policy/profile/IP set/service account/namespace updates and removes, in-sync) over 3 workloads, "
          "4 policies (two kinds sharing names), 3 profiles, 4 IP sets, generated so that the calculation graph's "
          "contract holds; 1 history in 8 breaks the contract at one operation (malformed stream: the model must then "
